@@ -20,8 +20,11 @@ EXC_MENU = ['BrokenPipeError', 'ConnectionResetError', 'ConnectionAbortedError',
 
 
 def gen_triple(r, thorough):
-    kind = r.choice(['ret', 'ret', 'echo', 'echo', 'arith', 'build', 'build', 'raise', 'raise', 'mutate', 'slow'])
+    kind = r.choice(['ret', 'ret', 'echo', 'echo', 'arith', 'build', 'build', 'raise', 'raise', 'mutate', 'slow'] + (['nested'] if r.random() < 0.25 else []))
     kwargs = {}
+    if kind == 'nested':
+        # a target that uses helper processes of its own (another worker, a multiprocessing pool)
+        return dict(target='nested_workers', args=[r.randint(1, 9), r.choice(['process', 'mp-pool'])], kwargs={}, via=r.choice(['ctor', 'create']), run=None, tuple_args=False, wait_mode='plain')
     if kind == 'slow':
         # a result / exception that takes a while to rebuild on the receiving side
         t, args = 'ret_slow', [r.randint(1, 99), r.choice([0.3, 0.8]), r.random() < 0.3]
@@ -177,7 +180,7 @@ def run(tier):
     thorough = tier == 'thorough'
     chk = Check('C02', 'exploration', tier,
                 'seeded triples over targets (identity, echo with positional/keyword shapes, arithmetic, container/bytes builders up to 4 MiB crossing the 64 KiB pipe buffer, raising variants with arguments, argument-mutating) '
-                'x {constructor, Worker.create} x run {None, True, False} x target None x tuple/list args x {wait(None), timed-wait/is_alive polling then wait(None)} x results slow to rebuild on the receiving side x {importable module, main script}; each run on thread, process and remote workers and compared with the direct call; '
+                'x {constructor, Worker.create} x run {None, True, False} x target None x tuple/list args x {wait(None), timed-wait/is_alive polling then wait(None)} x results slow to rebuild on the receiving side x targets that start helper processes of their own x {importable module, main script}; each run on thread, process and remote workers and compared with the direct call; '
                 'distinct non-trivial = distinct (target, argument shape, size class, outcome class, construction)')
     r = rng('c02')
     n = 600 if thorough else 180
@@ -192,6 +195,7 @@ def run(tier):
                 dict(target='ret_slow', args=[7, 0.8, False], kwargs={}, via='ctor', run=None, wait_mode='polled'), dict(target='ret_slow', args=[8, 0.8, True], kwargs={}, via='create', run=None, wait_mode='polled'),
                 dict(target='build', args=['bytes', 4 << 20], kwargs={}, via='ctor', run=None, wait_mode='polled'), dict(target='ret_value', args=[None], kwargs={}, via='ctor', run=None, wait_mode='polled')]
     triples += [dict(target='raise_exc', args=[k] + ([] if i % 2 else ['x']), kwargs={}, via='ctor' if i % 3 else 'create', run=None) for i, k in enumerate(EXC_MENU)]
+    triples += [dict(target='nested_workers', args=[3, how], kwargs={}, via=via, run=None) for how in ('process', 'mp-pool') for via in ('ctor', 'create')]
     triples += [dict(target='raise_exc', args=['OSError', en, 'm'], kwargs={}, via='ctor', run=None) for en in (4, 11, 32, 104, 110, 111)]
     main_triples = [dict(target='main:main_ret', args=[4], kwargs={}, via='ctor', run=None), dict(target='main:main_raise', args=[4], kwargs={}, via='ctor', run=None),
                     dict(target='main:main_plain', args=[4], kwargs={}, via='create', run=None), dict(target='main:main_ret', args=[[1, 2]], kwargs={}, via='create', run=None)]
